@@ -636,6 +636,70 @@ def st_gfa1(draw):
     return {"doc": doc}
 
 
+def prop_rgfa(case):
+    """The rGFA dialect is a subset of GFA1 (S lines with SN/SO/SR, L lines with 0M): such a graph, read with
+    dialect='rgfa', converts like any GFA1 graph, and the converted Gfa object validates as the GFA2 it is."""
+    doc, vlevel = case["doc"], case["vlevel"]
+    lines = gen.doc_lines(doc)
+    src = M.ModelDoc.from_doc(doc)
+    for how in ("to_gfa2_s", "to_gfa2"):
+        try:
+            g = gfapy.Gfa(lines, vlevel=vlevel, dialect="rgfa", **({"version": "gfa1"} if case.get("explicit") else {}))
+            if how == "to_gfa2_s":
+                text = g.to_gfa2_s()
+            else:
+                g2 = g.to_gfa2()
+                g2.validate()
+                text = str(g2)
+        except GfapyError as e:
+            raise Violation("conversion-refused", "rGFA, %s at vlevel %d raised %s: %s\n%s" % (how, vlevel, type(e).__name__, str(e)[:300], "\n".join(lines)), "rgfa/" + type(e).__name__)
+        except Exception as e:
+            raise Violation("conversion-foreign", "rGFA, %s raised %s: %s\n%s" % (how, type(e).__name__, str(e)[:300], "\n".join(lines)), type(e).__name__)
+        recs = parse_out(text, "gfa2", "rGFA " + how + " output")
+        compare_gfa2(src, doc["slen"], recs, text, how)
+        try:
+            gfapy.Gfa(text, version="gfa2", vlevel=3).validate()
+        except Exception as e:
+            raise Violation("invalid-output", "the converted rGFA graph is not valid GFA2 (%s: %s)\n%s" % (type(e).__name__, str(e)[:200], text), "rgfa")
+    return {"nt": sum(1 for l in doc["lines"] if l[0] == "L") >= 1, "rgfa": True}
+
+
+@st.composite
+def st_rgfa(draw):
+    r = draw(st.randoms(use_true_random=False))
+    names = list(gen.SEG_NAMES[:8])
+    r.shuffle(names)
+    segs = names[:r.randint(1, 4)]
+    lines, slen = [], {}
+    off = 0
+    for s in segs:
+        n = r.randint(1, 9)
+        seq = gen.gen_sequence(r, n) if gen.chance(r, 0.7) else "*"
+        tags = [["SN", "Z", gen.choice(r, ["chr1", "alt", "x"])], ["SO", "i", str(off)], ["SR", "i", str(r.randint(0, 2))]]
+        if seq == "*":
+            tags.append(["LN", "i", str(n)])
+        if gen.chance(r, 0.3):
+            tags.append(["xx", "Z", "more"])
+        r.shuffle(tags)
+        off += n
+        slen[s] = n
+        lines.append(["S", [s, seq], tags])
+    seen = set()
+    for _ in range(r.randint(0, 4)):
+        a, b = gen.choice(r, segs), gen.choice(r, segs)
+        pos = [a, gen.choice(r, "+-"), b, gen.choice(r, "+-"), "0M"]
+        if M.ends_key(*pos[:4]) in seen:
+            continue
+        seen.add(M.ends_key(*pos[:4]))
+        tags = []
+        if gen.chance(r, 0.5):
+            tags = [["SR", "i", str(r.randint(0, 2))], ["L1", "i", str(r.randint(0, 9))], ["L2", "i", str(r.randint(0, 9))]][:r.randint(1, 3)]
+        lines.append(["L", pos, tags])
+    if gen.chance(r, 0.5):
+        r.shuffle(lines)
+    return {"doc": {"version": "gfa1", "lines": lines, "slen": slen}, "vlevel": gen.choice(r, [0, 1, 2, 3]), "explicit": gen.chance(r, 0.5)}
+
+
 GFA1_ONLY = {"=": "M", "X": "M", "N": "D", "S": "I"}
 
 
@@ -834,6 +898,8 @@ def parts(tier):
     return [Part("gfa1", prop_gfa1, strategy=st_gfa1(), n=300 if q else 1500, quick_shards=2),
             Part("gfa2", prop_gfa2, strategy=st_gfa2(), n=300 if q else 1500, quick_shards=2),
             Part("gfa1-only-ops", prop_gfa1_only_ops, strategy=st_gfa1_only_ops(), n=150 if q else 800),
+            Part("rgfa", prop_rgfa, strategy=st_rgfa(), n=100 if q else 600,
+                 note="the rGFA subset read with dialect='rgfa' and converted; the Gfa returned by to_gfa2() must validate"),
             Part("whole-overlap", prop_whole, strategy=st_whole(), n=120 if q else 600),
             Part("cli", prop_cli, strategy=st_cli(), n=40 if q else 120, quick_shards=3,
                  note="bin/gfapy-convert as a subprocess")]
